@@ -6,7 +6,7 @@ namespace ImathVerif.Gen
 open ImathVerif
 
 /-- extracted from the C++ template at T = Sym; 2 path(s) -/
-def Frustum.planesM_persp_0 {α : Type} [Add α] [Sub α] [Mul α] [Div α] [Neg α] [LT α] [LE α] [DecidableLT α] [DecidableLE α] [DecidableEq α] [OfNat α 0] [OfNat α 2] (tmin : α) (sqrt : α → α) (n : α) (f : α) (l : α) (r : α) (t : α) (b : α) (M : M44 α) : (Plane3 α) :=
+def Frustum.planesM_persp_0 {α : Type} [Add α] [Sub α] [Mul α] [Div α] [Neg α] [LT α] [LE α] [DecidableLT α] [DecidableLE α] [DecidableEq α] [OfNat α 0] [OfNat α 2] (tmin : α) (tmax : α) (sqrt : α → α) (n : α) (f : α) (l : α) (r : α) (t : α) (b : α) (M : M44 α) : (Plane3 α) :=
   let t24 := (-n)
   let t25 := (t24 * M.x20)
   let t31 := (t24 * M.x21)
@@ -31,7 +31,7 @@ def Frustum.planesM_persp_0 {α : Type} [Add α] [Sub α] [Mul α] [Div α] [Neg
   let t211 := ((t208 * t204) - (t207 * t205))
   let t214 := ((t206 * t205) - (t208 * t203))
   let t217 := ((t207 * t203) - (t206 * t204))
-  let t218 := (V3.length tmin sqrt ⟨t217, t214, t211⟩)
+  let t218 := (V3.length tmin tmax sqrt ⟨t217, t214, t211⟩)
   let t224 := (t217 / t218)
   let t225 := (t214 / t218)
   let t226 := (t211 / t218)
@@ -41,7 +41,7 @@ def Frustum.planesM_persp_0 {α : Type} [Add α] [Sub α] [Mul α] [Div α] [Neg
     ⟨⟨t224, t225, t226⟩, (((t224 * t202) + (t225 * t201)) + (t226 * t200))⟩
 
 /-- extracted from the C++ template at T = Sym; 2 path(s) -/
-def Frustum.planesM_persp_1 {α : Type} [Add α] [Sub α] [Mul α] [Div α] [Neg α] [LT α] [LE α] [DecidableLT α] [DecidableLE α] [DecidableEq α] [OfNat α 0] [OfNat α 2] (tmin : α) (sqrt : α → α) (n : α) (f : α) (l : α) (r : α) (t : α) (b : α) (M : M44 α) : (Plane3 α) :=
+def Frustum.planesM_persp_1 {α : Type} [Add α] [Sub α] [Mul α] [Div α] [Neg α] [LT α] [LE α] [DecidableLT α] [DecidableLE α] [DecidableEq α] [OfNat α 0] [OfNat α 2] (tmin : α) (tmax : α) (sqrt : α → α) (n : α) (f : α) (l : α) (r : α) (t : α) (b : α) (M : M44 α) : (Plane3 α) :=
   let t24 := (-n)
   let t25 := (t24 * M.x20)
   let t31 := (t24 * M.x21)
@@ -66,7 +66,7 @@ def Frustum.planesM_persp_1 {α : Type} [Add α] [Sub α] [Mul α] [Div α] [Neg
   let t237 := ((t234 * t207) - (t233 * t208))
   let t240 := ((t232 * t208) - (t234 * t206))
   let t243 := ((t233 * t206) - (t232 * t207))
-  let t244 := (V3.length tmin sqrt ⟨t243, t240, t237⟩)
+  let t244 := (V3.length tmin tmax sqrt ⟨t243, t240, t237⟩)
   let t250 := (t243 / t244)
   let t251 := (t240 / t244)
   let t252 := (t237 / t244)
@@ -76,7 +76,7 @@ def Frustum.planesM_persp_1 {α : Type} [Add α] [Sub α] [Mul α] [Div α] [Neg
     ⟨⟨t250, t251, t252⟩, (((t250 * t202) + (t251 * t201)) + (t252 * t200))⟩
 
 /-- extracted from the C++ template at T = Sym; 2 path(s) -/
-def Frustum.planesM_persp_2 {α : Type} [Add α] [Sub α] [Mul α] [Div α] [Neg α] [LT α] [LE α] [DecidableLT α] [DecidableLE α] [DecidableEq α] [OfNat α 0] [OfNat α 2] (tmin : α) (sqrt : α → α) (n : α) (f : α) (l : α) (r : α) (t : α) (b : α) (M : M44 α) : (Plane3 α) :=
+def Frustum.planesM_persp_2 {α : Type} [Add α] [Sub α] [Mul α] [Div α] [Neg α] [LT α] [LE α] [DecidableLT α] [DecidableLE α] [DecidableEq α] [OfNat α 0] [OfNat α 2] (tmin : α) (tmax : α) (sqrt : α → α) (n : α) (f : α) (l : α) (r : α) (t : α) (b : α) (M : M44 α) : (Plane3 α) :=
   let t24 := (-n)
   let t25 := (t24 * M.x20)
   let t26 := (b * M.x10)
@@ -101,7 +101,7 @@ def Frustum.planesM_persp_2 {α : Type} [Add α] [Sub α] [Mul α] [Div α] [Neg
   let t263 := ((t260 * t233) - (t259 * t234))
   let t266 := ((t258 * t234) - (t260 * t232))
   let t269 := ((t259 * t232) - (t258 * t233))
-  let t270 := (V3.length tmin sqrt ⟨t269, t266, t263⟩)
+  let t270 := (V3.length tmin tmax sqrt ⟨t269, t266, t263⟩)
   let t276 := (t269 / t270)
   let t277 := (t266 / t270)
   let t278 := (t263 / t270)
@@ -111,7 +111,7 @@ def Frustum.planesM_persp_2 {α : Type} [Add α] [Sub α] [Mul α] [Div α] [Neg
     ⟨⟨t276, t277, t278⟩, (((t276 * t202) + (t277 * t201)) + (t278 * t200))⟩
 
 /-- extracted from the C++ template at T = Sym; 2 path(s) -/
-def Frustum.planesM_persp_3 {α : Type} [Add α] [Sub α] [Mul α] [Div α] [Neg α] [LT α] [LE α] [DecidableLT α] [DecidableLE α] [DecidableEq α] [OfNat α 0] [OfNat α 2] (tmin : α) (sqrt : α → α) (n : α) (f : α) (l : α) (r : α) (t : α) (b : α) (M : M44 α) : (Plane3 α) :=
+def Frustum.planesM_persp_3 {α : Type} [Add α] [Sub α] [Mul α] [Div α] [Neg α] [LT α] [LE α] [DecidableLT α] [DecidableLE α] [DecidableEq α] [OfNat α 0] [OfNat α 2] (tmin : α) (tmax : α) (sqrt : α → α) (n : α) (f : α) (l : α) (r : α) (t : α) (b : α) (M : M44 α) : (Plane3 α) :=
   let t24 := (-n)
   let t25 := (t24 * M.x20)
   let t27 := (l * M.x00)
@@ -136,7 +136,7 @@ def Frustum.planesM_persp_3 {α : Type} [Add α] [Sub α] [Mul α] [Div α] [Neg
   let t286 := ((t205 * t259) - (t204 * t260))
   let t289 := ((t203 * t260) - (t205 * t258))
   let t292 := ((t204 * t258) - (t203 * t259))
-  let t293 := (V3.length tmin sqrt ⟨t292, t289, t286⟩)
+  let t293 := (V3.length tmin tmax sqrt ⟨t292, t289, t286⟩)
   let t299 := (t292 / t293)
   let t300 := (t289 / t293)
   let t301 := (t286 / t293)
@@ -146,7 +146,7 @@ def Frustum.planesM_persp_3 {α : Type} [Add α] [Sub α] [Mul α] [Div α] [Neg
     ⟨⟨t299, t300, t301⟩, (((t299 * t202) + (t300 * t201)) + (t301 * t200))⟩
 
 /-- extracted from the C++ template at T = Sym; 2 path(s) -/
-def Frustum.planesM_persp_4 {α : Type} [Add α] [Sub α] [Mul α] [Div α] [Neg α] [LT α] [LE α] [DecidableLT α] [DecidableLE α] [DecidableEq α] [OfNat α 0] [OfNat α 2] (tmin : α) (sqrt : α → α) (n : α) (f : α) (l : α) (r : α) (t : α) (b : α) (M : M44 α) : (Plane3 α) :=
+def Frustum.planesM_persp_4 {α : Type} [Add α] [Sub α] [Mul α] [Div α] [Neg α] [LT α] [LE α] [DecidableLT α] [DecidableLE α] [DecidableEq α] [OfNat α 0] [OfNat α 2] (tmin : α) (tmax : α) (sqrt : α → α) (n : α) (f : α) (l : α) (r : α) (t : α) (b : α) (M : M44 α) : (Plane3 α) :=
   let t24 := (-n)
   let t25 := (t24 * M.x20)
   let t26 := (b * M.x10)
@@ -175,7 +175,7 @@ def Frustum.planesM_persp_4 {α : Type} [Add α] [Sub α] [Mul α] [Div α] [Neg
   let t315 := ((t312 * t308) - (t311 * t309))
   let t318 := ((t310 * t309) - (t312 * t307))
   let t321 := ((t311 * t307) - (t310 * t308))
-  let t322 := (V3.length tmin sqrt ⟨t321, t318, t315⟩)
+  let t322 := (V3.length tmin tmax sqrt ⟨t321, t318, t315⟩)
   let t328 := (t321 / t322)
   let t329 := (t318 / t322)
   let t330 := (t315 / t322)
@@ -185,7 +185,7 @@ def Frustum.planesM_persp_4 {α : Type} [Add α] [Sub α] [Mul α] [Div α] [Neg
     ⟨⟨t328, t329, t330⟩, (((t328 * t51) + (t329 * t50)) + (t330 * t49))⟩
 
 /-- extracted from the C++ template at T = Sym; 2 path(s) -/
-def Frustum.planesM_persp_5 {α : Type} [Add α] [Sub α] [Mul α] [Div α] [Neg α] [LT α] [LE α] [DecidableLT α] [DecidableLE α] [DecidableEq α] [OfNat α 0] [OfNat α 2] (tmin : α) (sqrt : α → α) (n : α) (f : α) (l : α) (r : α) (t : α) (b : α) (M : M44 α) : (Plane3 α) :=
+def Frustum.planesM_persp_5 {α : Type} [Add α] [Sub α] [Mul α] [Div α] [Neg α] [LT α] [LE α] [DecidableLT α] [DecidableLE α] [DecidableEq α] [OfNat α 0] [OfNat α 2] (tmin : α) (tmax : α) (sqrt : α → α) (n : α) (f : α) (l : α) (r : α) (t : α) (b : α) (M : M44 α) : (Plane3 α) :=
   let t105 := (f / n)
   let t106 := (t105 * l)
   let t107 := (t105 * r)
@@ -219,7 +219,7 @@ def Frustum.planesM_persp_5 {α : Type} [Add α] [Sub α] [Mul α] [Div α] [Neg
   let t344 := ((t341 * t337) - (t340 * t338))
   let t347 := ((t339 * t338) - (t341 * t336))
   let t350 := ((t340 * t336) - (t339 * t337))
-  let t351 := (V3.length tmin sqrt ⟨t350, t347, t344⟩)
+  let t351 := (V3.length tmin tmax sqrt ⟨t350, t347, t344⟩)
   let t357 := (t350 / t351)
   let t358 := (t347 / t351)
   let t359 := (t344 / t351)
@@ -229,7 +229,7 @@ def Frustum.planesM_persp_5 {α : Type} [Add α] [Sub α] [Mul α] [Div α] [Neg
     ⟨⟨t357, t358, t359⟩, (((t357 * t137) + (t358 * t136)) + (t359 * t135))⟩
 
 /-- extracted from the C++ template at T = Sym; 2 path(s) -/
-def Frustum.planesM_ortho_0 {α : Type} [Add α] [Sub α] [Mul α] [Div α] [Neg α] [LT α] [LE α] [DecidableLT α] [DecidableLE α] [DecidableEq α] [OfNat α 0] [OfNat α 2] (tmin : α) (sqrt : α → α) (n : α) (f : α) (l : α) (r : α) (t : α) (b : α) (M : M44 α) : (Plane3 α) :=
+def Frustum.planesM_ortho_0 {α : Type} [Add α] [Sub α] [Mul α] [Div α] [Neg α] [LT α] [LE α] [DecidableLT α] [DecidableLE α] [DecidableEq α] [OfNat α 0] [OfNat α 2] (tmin : α) (tmax : α) (sqrt : α → α) (n : α) (f : α) (l : α) (r : α) (t : α) (b : α) (M : M44 α) : (Plane3 α) :=
   let t24 := (-n)
   let t52 := (t * M.x10)
   let t56 := (t * M.x11)
@@ -259,7 +259,7 @@ def Frustum.planesM_ortho_0 {α : Type} [Add α] [Sub α] [Mul α] [Div α] [Neg
   let t417 := ((t414 * t410) - (t413 * t411))
   let t420 := ((t412 * t411) - (t414 * t409))
   let t423 := ((t413 * t409) - (t412 * t410))
-  let t424 := (V3.length tmin sqrt ⟨t423, t420, t417⟩)
+  let t424 := (V3.length tmin tmax sqrt ⟨t423, t420, t417⟩)
   let t430 := (t423 / t424)
   let t431 := (t420 / t424)
   let t432 := (t417 / t424)
@@ -269,7 +269,7 @@ def Frustum.planesM_ortho_0 {α : Type} [Add α] [Sub α] [Mul α] [Div α] [Neg
     ⟨⟨t430, t431, t432⟩, (((t430 * t89) + (t431 * t88)) + (t432 * t87))⟩
 
 /-- extracted from the C++ template at T = Sym; 2 path(s) -/
-def Frustum.planesM_ortho_1 {α : Type} [Add α] [Sub α] [Mul α] [Div α] [Neg α] [LT α] [LE α] [DecidableLT α] [DecidableLE α] [DecidableEq α] [OfNat α 0] [OfNat α 2] (tmin : α) (sqrt : α → α) (n : α) (f : α) (l : α) (r : α) (t : α) (b : α) (M : M44 α) : (Plane3 α) :=
+def Frustum.planesM_ortho_1 {α : Type} [Add α] [Sub α] [Mul α] [Div α] [Neg α] [LT α] [LE α] [DecidableLT α] [DecidableLE α] [DecidableEq α] [OfNat α 0] [OfNat α 2] (tmin : α) (tmax : α) (sqrt : α → α) (n : α) (f : α) (l : α) (r : α) (t : α) (b : α) (M : M44 α) : (Plane3 α) :=
   let t24 := (-n)
   let t71 := (r * M.x00)
   let t75 := (r * M.x01)
@@ -299,7 +299,7 @@ def Frustum.planesM_ortho_1 {α : Type} [Add α] [Sub α] [Mul α] [Div α] [Neg
   let t446 := ((t443 * t439) - (t442 * t440))
   let t449 := ((t441 * t440) - (t443 * t438))
   let t452 := ((t442 * t438) - (t441 * t439))
-  let t453 := (V3.length tmin sqrt ⟨t452, t449, t446⟩)
+  let t453 := (V3.length tmin tmax sqrt ⟨t452, t449, t446⟩)
   let t459 := (t452 / t453)
   let t460 := (t449 / t453)
   let t461 := (t446 / t453)
@@ -309,7 +309,7 @@ def Frustum.planesM_ortho_1 {α : Type} [Add α] [Sub α] [Mul α] [Div α] [Neg
     ⟨⟨t459, t460, t461⟩, (((t459 * t104) + (t460 * t103)) + (t461 * t102))⟩
 
 /-- extracted from the C++ template at T = Sym; 2 path(s) -/
-def Frustum.planesM_ortho_2 {α : Type} [Add α] [Sub α] [Mul α] [Div α] [Neg α] [LT α] [LE α] [DecidableLT α] [DecidableLE α] [DecidableEq α] [OfNat α 0] [OfNat α 2] (tmin : α) (sqrt : α → α) (n : α) (f : α) (l : α) (r : α) (t : α) (b : α) (M : M44 α) : (Plane3 α) :=
+def Frustum.planesM_ortho_2 {α : Type} [Add α] [Sub α] [Mul α] [Div α] [Neg α] [LT α] [LE α] [DecidableLT α] [DecidableLE α] [DecidableEq α] [OfNat α 0] [OfNat α 2] (tmin : α) (tmax : α) (sqrt : α → α) (n : α) (f : α) (l : α) (r : α) (t : α) (b : α) (M : M44 α) : (Plane3 α) :=
   let t24 := (-n)
   let t26 := (b * M.x10)
   let t28 := ((l * M.x00) + t26)
@@ -339,7 +339,7 @@ def Frustum.planesM_ortho_2 {α : Type} [Add α] [Sub α] [Mul α] [Div α] [Neg
   let t475 := ((t472 * t468) - (t471 * t469))
   let t478 := ((t470 * t469) - (t472 * t467))
   let t481 := ((t471 * t467) - (t470 * t468))
-  let t482 := (V3.length tmin sqrt ⟨t481, t478, t475⟩)
+  let t482 := (V3.length tmin tmax sqrt ⟨t481, t478, t475⟩)
   let t488 := (t481 / t482)
   let t489 := (t478 / t482)
   let t490 := (t475 / t482)
@@ -349,7 +349,7 @@ def Frustum.planesM_ortho_2 {α : Type} [Add α] [Sub α] [Mul α] [Div α] [Neg
     ⟨⟨t488, t489, t490⟩, (((t488 * t51) + (t489 * t50)) + (t490 * t49))⟩
 
 /-- extracted from the C++ template at T = Sym; 2 path(s) -/
-def Frustum.planesM_ortho_3 {α : Type} [Add α] [Sub α] [Mul α] [Div α] [Neg α] [LT α] [LE α] [DecidableLT α] [DecidableLE α] [DecidableEq α] [OfNat α 0] [OfNat α 2] (tmin : α) (sqrt : α → α) (n : α) (f : α) (l : α) (r : α) (t : α) (b : α) (M : M44 α) : (Plane3 α) :=
+def Frustum.planesM_ortho_3 {α : Type} [Add α] [Sub α] [Mul α] [Div α] [Neg α] [LT α] [LE α] [DecidableLT α] [DecidableLE α] [DecidableEq α] [OfNat α 0] [OfNat α 2] (tmin : α) (tmax : α) (sqrt : α → α) (n : α) (f : α) (l : α) (r : α) (t : α) (b : α) (M : M44 α) : (Plane3 α) :=
   let t24 := (-n)
   let t27 := (l * M.x00)
   let t33 := (l * M.x01)
@@ -379,7 +379,7 @@ def Frustum.planesM_ortho_3 {α : Type} [Add α] [Sub α] [Mul α] [Div α] [Neg
   let t504 := ((t501 * t497) - (t500 * t498))
   let t507 := ((t499 * t498) - (t501 * t496))
   let t510 := ((t500 * t496) - (t499 * t497))
-  let t511 := (V3.length tmin sqrt ⟨t510, t507, t504⟩)
+  let t511 := (V3.length tmin tmax sqrt ⟨t510, t507, t504⟩)
   let t517 := (t510 / t511)
   let t518 := (t507 / t511)
   let t519 := (t504 / t511)
@@ -389,7 +389,7 @@ def Frustum.planesM_ortho_3 {α : Type} [Add α] [Sub α] [Mul α] [Div α] [Neg
     ⟨⟨t517, t518, t519⟩, (((t517 * t70) + (t518 * t69)) + (t519 * t68))⟩
 
 /-- extracted from the C++ template at T = Sym; 2 path(s) -/
-def Frustum.planesM_ortho_4 {α : Type} [Add α] [Sub α] [Mul α] [Div α] [Neg α] [LT α] [LE α] [DecidableLT α] [DecidableLE α] [DecidableEq α] [OfNat α 0] [OfNat α 2] (tmin : α) (sqrt : α → α) (n : α) (f : α) (l : α) (r : α) (t : α) (b : α) (M : M44 α) : (Plane3 α) :=
+def Frustum.planesM_ortho_4 {α : Type} [Add α] [Sub α] [Mul α] [Div α] [Neg α] [LT α] [LE α] [DecidableLT α] [DecidableLE α] [DecidableEq α] [OfNat α 0] [OfNat α 2] (tmin : α) (tmax : α) (sqrt : α → α) (n : α) (f : α) (l : α) (r : α) (t : α) (b : α) (M : M44 α) : (Plane3 α) :=
   let t24 := (-n)
   let t25 := (t24 * M.x20)
   let t26 := (b * M.x10)
@@ -418,7 +418,7 @@ def Frustum.planesM_ortho_4 {α : Type} [Add α] [Sub α] [Mul α] [Div α] [Neg
   let t315 := ((t312 * t308) - (t311 * t309))
   let t318 := ((t310 * t309) - (t312 * t307))
   let t321 := ((t311 * t307) - (t310 * t308))
-  let t322 := (V3.length tmin sqrt ⟨t321, t318, t315⟩)
+  let t322 := (V3.length tmin tmax sqrt ⟨t321, t318, t315⟩)
   let t328 := (t321 / t322)
   let t329 := (t318 / t322)
   let t330 := (t315 / t322)
@@ -428,7 +428,7 @@ def Frustum.planesM_ortho_4 {α : Type} [Add α] [Sub α] [Mul α] [Div α] [Neg
     ⟨⟨t328, t329, t330⟩, (((t328 * t51) + (t329 * t50)) + (t330 * t49))⟩
 
 /-- extracted from the C++ template at T = Sym; 2 path(s) -/
-def Frustum.planesM_ortho_5 {α : Type} [Add α] [Sub α] [Mul α] [Div α] [Neg α] [LT α] [LE α] [DecidableLT α] [DecidableLE α] [DecidableEq α] [OfNat α 0] [OfNat α 2] (tmin : α) (sqrt : α → α) (n : α) (f : α) (l : α) (r : α) (t : α) (b : α) (M : M44 α) : (Plane3 α) :=
+def Frustum.planesM_ortho_5 {α : Type} [Add α] [Sub α] [Mul α] [Div α] [Neg α] [LT α] [LE α] [DecidableLT α] [DecidableLE α] [DecidableEq α] [OfNat α 0] [OfNat α 2] (tmin : α) (tmax : α) (sqrt : α → α) (n : α) (f : α) (l : α) (r : α) (t : α) (b : α) (M : M44 α) : (Plane3 α) :=
   let t27 := (l * M.x00)
   let t33 := (l * M.x01)
   let t39 := (l * M.x02)
@@ -457,7 +457,7 @@ def Frustum.planesM_ortho_5 {α : Type} [Add α] [Sub α] [Mul α] [Div α] [Neg
   let t533 := ((t530 * t526) - (t529 * t527))
   let t536 := ((t528 * t527) - (t530 * t525))
   let t539 := ((t529 * t525) - (t528 * t526))
-  let t540 := (V3.length tmin sqrt ⟨t539, t536, t533⟩)
+  let t540 := (V3.length tmin tmax sqrt ⟨t539, t536, t533⟩)
   let t546 := (t539 / t540)
   let t547 := (t536 / t540)
   let t548 := (t533 / t540)
